@@ -21,3 +21,94 @@ CONTRACTS = [
         loops={0: {"invariant": ["is_none(cst_node_found)"]}},
     ),
 ]
+
+
+# --------------------------------------------------------------------------------------------------------------
+# maybe_replace_function_args: the header splice `head ( plist ) ws [-> ann] :`  ->  `head ( rendered ) ws [-> ann] :`
+#
+# The straight-line code between `def_len` and the store into cst_list[cst_idx] is verified as four consecutive
+# blocks (sequential composition: each block's ensures is the next block's requires; every block also proves that it
+# leaves the header text and the earlier results alone).  The blocks are delimited by the first words of the statements,
+# so a rewrite inside a block is verified against the same contract.
+#   A  name offset      def_len .. function_name_starts_at     ensures 0 <= function_name_starts_at <= len(head)
+#   B  open paren       arg_start_idx                          ensures arg_start_idx == len(head)
+#   C  close paren      func_end .. (return_type) .. func_end  ensures func_end == len(head) + 1 + len(plist) + 1
+#   D  splice           cst_list[cst_idx] = FunctionDefinitionStart(...)
+# Ghosts: head = `def name` / `async def name`, plist = the parameter list text, ws = blanks, ann = return annotation.
+M7 = "cdd.shared.ast_cst_utils:maybe_replace_function_args"
+STORE = "cst_list[cst_idx] = FunctionDefinitionStart("
+SLOT = {"cst_list[cst_idx].value": "str"}
+SLOT_RET = {"cst_list[cst_idx].value": "str", "new_node.returns": "opaque"}
+SHAPE_NO_ANN = "cst_list[cst_idx].value == head + '(' + plist + ')' + ws + ':'"
+SHAPE_ANN = "cst_list[cst_idx].value == head + '(' + plist + ')' + ws + '->' + ann + ':'"
+SHAPE_REQ = [
+    # between the closing parenthesis and the arrow / colon: no parenthesis, no colon
+    "not contains(ws, ')') and not contains(ws, ':')",
+]
+ANN_REQ = [
+    # the return annotation is arbitrary text without an arrow or a colon -- it MAY contain parentheses and brackets;
+    # the parameter list may contain anything, an arrow inside a default included
+    "not contains('>' + ann, '->') and not contains(ann, ':')",
+]
+# maybe_replace_function_return_type runs first and leaves an arrow in the header text iff new_node.returns is set
+# (cross-function invariant, assumed here; the bounded stand-in exercises the composition)
+UNCHANGED = "cst_list[cst_idx].value == old(cst_list[cst_idx].value)"
+
+CONTRACTS.extend([
+    Contract(
+        M7 + "#A-name-offset", src=M7, block=("def_len: ", "arg_start_idx", "before"),
+        params={"cst_list": "opaque", "cst_idx": "int", "head": "str", "rest": "str"}, paths=SLOT,
+        requires=[
+            "cst_list[cst_idx].value == head + rest",
+            "startswith(head, 'def ') or startswith(head, 'async def ')",
+        ],
+        ensures=["0 <= function_name_starts_at", "function_name_starts_at <= length(head)", UNCHANGED],
+    ),
+    Contract(
+        M7 + "#B-open-paren", src=M7, block=("arg_start_idx", "func_end", "before"),
+        params={"cst_list": "opaque", "cst_idx": "int", "head": "str", "rest": "str", "function_name_starts_at": "int"}, paths=SLOT,
+        requires=[
+            "cst_list[cst_idx].value == head + '(' + rest",
+            "not contains(head, '(')",
+            "0 <= function_name_starts_at and function_name_starts_at <= length(head)",
+        ],
+        ensures=["arg_start_idx == length(head)", UNCHANGED],
+    ),
+    Contract(
+        M7 + "#C-close-paren/no-annotation", src=M7, block=("func_end", STORE, "before"),
+        params={"cst_list": "opaque", "cst_idx": "int", "new_node": "opaque", "head": "str", "plist": "str", "ws": "str", "arg_start_idx": "int"}, paths=SLOT_RET,
+        requires=[SHAPE_NO_ANN, "is_none(new_node.returns)"] + SHAPE_REQ,
+        ensures=["func_end == length(head) + 1 + length(plist) + 1", UNCHANGED, "arg_start_idx == old(arg_start_idx)"],
+    ),
+    Contract(
+        M7 + "#C-close-paren/annotation", src=M7, block=("func_end", STORE, "before"),
+        params={"cst_list": "opaque", "cst_idx": "int", "new_node": "opaque", "head": "str", "plist": "str", "ws": "str", "ann": "str", "arg_start_idx": "int"}, paths=SLOT_RET,
+        requires=[SHAPE_ANN, "not is_none(new_node.returns)"] + SHAPE_REQ + ANN_REQ,
+        ensures=["func_end == length(head) + 1 + length(plist) + 1", UNCHANGED, "arg_start_idx == old(arg_start_idx)"],
+    ),
+    Contract(
+        M7 + "#D-splice", src=M7, block=(STORE, STORE),
+        params={"cst_list": "opaque", "cst_idx": "int", "new_node": "opaque", "head": "str", "plist": "str", "tail": "str",
+                "arg_start_idx": "int", "func_end": "int"},
+        paths={"cst_list[cst_idx].value": "str", "cst_list[cst_idx].name": "str",
+               "cst_list[cst_idx].line_no_start": "int", "cst_list[cst_idx].line_no_end": "int"},
+        pure_results={"to_code": "str"},
+        requires=[
+            # tail = blanks, optional return annotation, colon
+            "cst_list[cst_idx].value == head + '(' + plist + ')' + tail",
+            "arg_start_idx == length(head)",
+            "func_end == length(head) + 1 + length(plist) + 1",
+        ],
+        ensures=[
+            # everything up to and including the opening parenthesis, and everything from the parenthesis that closes the
+            # parameter list (blanks, return annotation, colon), is carried over unchanged
+            "startswith(cst_list[cst_idx].value, head + '(')",
+            "endswith(cst_list[cst_idx].value, ')' + tail)",
+            "length(cst_list[cst_idx].value) >= length(head) + 2 + length(tail)",
+            # the slot keeps its name and line span
+            "cst_list[cst_idx].name == old(cst_list[cst_idx].name)",
+            "cst_list[cst_idx].line_no_start == old(cst_list[cst_idx].line_no_start)",
+            "cst_list[cst_idx].line_no_end == old(cst_list[cst_idx].line_no_end)",
+        ],
+    ),
+])
